@@ -17,7 +17,8 @@ MoV == << Op("-"), Op("#"), Op(","), Op("|"), Lam("dbl"), Lam("neg"), Lam("dec")
 CvV == << Lam("half"), Adv("over", Op(",")) >>                       \* verbs with a fixpoint
 IxV == << Lam("ix0"), Lam("ix1"), Lam("ixm") >>
 ChV == << Adv("over", Op("+")), Adv("over", Lam("sub")), Adv("over", Op(",")), Adv("scan", Op("+")), Adv("scan", Lam("nas")),
-          Adv("each", Lam("dbl")), Adv("each", Op("-")), Adv("eachpair", Lam("sub")), Adv("over", Op("|")), Adv("over", Op("&")) >>
+          Adv("each", Lam("dbl")), Adv("each", Op("-")), Adv("eachpair", Lam("sub")), Adv("over", Op("|")), Adv("over", Op("&")),
+          Adv("over", Op("-")), Adv("scan", Op("-")), Adv("eachpair", Op("-")), Adv("over", Op("*")), Adv("scan", Op("*")) >>
 
 \* forms: name, arity (1: f adv a ; 2: a f adv b), verb list
 Forms == << [n |-> "each", ar |-> 1, vs |-> MoV], [n |-> "eachpair", ar |-> 1, vs |-> DyV], [n |-> "over", ar |-> 1, vs |-> DyV],
